@@ -16,6 +16,7 @@ import (
 	"github.com/scionproto/scion/pkg/snet"
 
 	"example.com/scion-time/core/client"
+	"example.com/scion-time/net/ntp"
 
 	"verif.local/sim/simcore"
 	"verif.local/sim/simnet"
@@ -254,6 +255,7 @@ func c05SCIONWorld(r *simcore.Run) any {
 		return routes, true
 	}
 	seenCalls := 0
+	var prevAcceptedRx ntp.Time64
 	ok, rejected, acceptedAttack, evaluated := 0, 0, 0, 0
 	var samples []string
 	w.net.OnClose = func(c *simnet.UDPConn) {
@@ -310,6 +312,15 @@ func c05SCIONWorld(r *simcore.Run) any {
 		if isAttack {
 			acceptedAttack++
 			r.Probe("crafted-but-valid-accepted")
+		}
+		if resp, ok := decodeNTP(lp.pld); ok {
+			req, _ := decodeNTP(qp.pld)
+			if why := c05Provenance(req, resp, filter.calls[len(filter.calls)-1], prevAcceptedRx); why != "" {
+				r.Fail("C05", "scion/provenance/t1", "%s", why)
+				return
+			}
+			prevAcceptedRx = resp.ReceiveTime
+			r.Probe("provenance-checked")
 		}
 	}
 	log := slog.New(&tagHandler{})
